@@ -276,9 +276,54 @@ def run_shard(ctx):
         ctx.evaluation((script, st), nontrivial=len(names) >= 2, sample={'script': script, 'settings': st})
         out = one_program(ctx, prog, script, rng, st)
         ctx.seen('outcomes', out)
+    multi_target(ctx, rng)
+
+
+def multi_target(ctx, rng):
+    """Statements with several left-hand-side terms (`A, B = e1, e2`): every target is endogenous, right-hand-side-only names are
+    exogenous, and a *different* equation for any of the targets (first or not, before or after, single- or multi-target) is
+    rejected as a double definition, while an identical repetition is accepted."""
+    import fsic
+    pool = ['A', 'B', 'C_', 'Dd', 'E1', 'F', 'G', 'H', 'K', 'M']
+    for i in range(ctx.pick(60, 600)):
+        names = rng.sample(pool, 8)
+        k = rng.choice([2, 2, 3])
+        targets, rhs = names[:k], names[k:2 * k]
+        stmt = ', '.join(targets) + ' = ' + ', '.join(f'{x}[-1]' if rng.random() < 0.3 else x for x in rhs)
+        victim = rng.choice(targets)
+        other_rhs = names[2 * k]
+        how = rng.choice(['single', 'multi-first', 'multi-last', 'identical', 'none'])
+        second = {'single': f'{victim} = {other_rhs}', 'multi-first': f'{victim}, {names[2 * k + 1]} = {other_rhs}, 1', 'multi-last': f'{names[2 * k + 1]}, {victim} = 1, {other_rhs}',
+                  'identical': stmt, 'none': f'{names[2 * k + 1]} = {other_rhs}'}[how]
+        script = '\n'.join([stmt, second] if rng.random() < 0.5 else [second, stmt])
+        case = {'script': script, 'multi_target': how}
+        ctx.evaluation(script, nontrivial=True, sample=case)
+        ctx.count('multi_target_scripts')
+        try:
+            symbols = fsic.parse_model(script)
+            outcome = 'accepted'
+        except (fsic.exceptions.ParserError, fsic.exceptions.SymbolError) as e:
+            outcome = type(e).__name__
+        except Exception as e:
+            ctx.violation('parse-foreign-exception', f'{script!r}: {type(e).__name__}: {e}', case)
+            continue
+        if how in ('single', 'multi-first', 'multi-last'):
+            if outcome == 'accepted':
+                ctx.violation('must-reject-accepted', f'{script!r}: {victim} is defined by two different equations but the script was accepted', case)
+            continue
+        if outcome != 'accepted':
+            ctx.violation('unexpected-reject', f'{script!r} rejected with {outcome}', case)
+            continue
+        types = {x.name: x.type.name for x in symbols}
+        bad = [t for t in targets if types.get(t) != 'ENDOGENOUS'] + [r for r in rhs if types.get(r) != 'EXOGENOUS']
+        if bad:
+            ctx.violation('symbol-classification', f'{script!r}: targets {targets} must be endogenous and {rhs} exogenous; got {types}', case)
 
 
 def replay(ctx, case):
+    if case.get('multi_target'):
+        ctx.inconclusive_because('multi-target cases are replayed by re-running the shard with the same VERIF_SEED')
+        return
     prog = gen.from_json(case['program'])
     st = [(None, None, None, None)]
     if case.get('settings'):
